@@ -110,6 +110,7 @@ func (regManager *RegistrationManager) OnReload(conf *RegConfig) {
 
 	// if we made it here via sigHUP then the RegConfig.ParseBlocklists should
 	// already have been called and not erred.
+	verifhook.Yield("reload.covert", regManager)
 	regManager.RegConfig.CovertBlocklistSubnets = conf.CovertBlocklistSubnets
 	regManager.RegConfig.covertBlocklistSubnets = conf.covertBlocklistSubnets
 
@@ -122,6 +123,7 @@ func (regManager *RegistrationManager) OnReload(conf *RegConfig) {
 	regManager.RegConfig.CovertBlocklistDomains = conf.CovertBlocklistDomains
 	regManager.RegConfig.covertBlocklistDomains = conf.covertBlocklistDomains
 
+	verifhook.Yield("reload.phantom", regManager)
 	regManager.RegConfig.PhantomBlocklist = conf.PhantomBlocklist
 	regManager.RegConfig.phantomBlocklist = conf.phantomBlocklist
 
